@@ -338,7 +338,7 @@ def rule_call_parens(ctx, prop):
             rep.floor(f"decision rows of format_function_args[{arm}]", len(seen), 3, cfg)
         # Parentheses arm: conversion to sugar only if !Input && omit && len==1 && !Obscure
         try:
-            res = Enumerator(f, {f"arg:{ai}": "Parentheses"}, max_paths=60000,
+            res = Enumerator(f, {f"arg:{ai}": "Parentheses"}, max_paths=200000, track_cmp=True,
                              prune=lambda st, bi: False).run()
         except TooManyPaths:
             rep.anchor(False, "format_function_args[Parentheses]: too many paths", cfg)
@@ -370,23 +370,42 @@ def rule_call_parens(ctx, prop):
             for kk, vv in st.disc.items():
                 if isinstance(vv, str) and vv in ("String", "TableConstructor") and kk != f"arg:{ai}":
                     arg_kind = vv
-            ok = (not is_input) and omit and all(omit) and not obscure and arg_kind == conv
-            sig = (conv, is_input, tuple(omit), obscure, arg_kind)
+            # exactly one argument: `arguments.len() == 1` (or a match on len() with arm 1) holds on this path
+            single = False
+            for hk, hv in st.hist:
+                if hk == "cmp":
+                    op_, a_, b_, out_ = hv
+                    side = None
+                    if is_const(b_) and b_.get("v") == 1:
+                        side = a_
+                    elif is_const(a_) and a_.get("v") == 1:
+                        side = b_
+                    if side is not None and ((op_ == "Eq" and out_) or (op_ == "Ne" and not out_)) and \
+                            any(c.endswith("Punctuated::<T>::len") or c.endswith("::len") for c in prov_calls(provenance(f, side))):
+                        single = True
+                elif isinstance(hk, str) and hk.startswith("int:") and hv == ("int", 1):
+                    kb = hk[4:].split(".")[0]
+                    if kb.startswith("call:") and callee(f.blocks[int(kb[5:])]["term"]).endswith("len"):
+                        single = True
+            ok = (not is_input) and omit and all(omit) and not obscure and arg_kind == conv and single
+            sig = (conv, is_input, tuple(omit), obscure, arg_kind, single)
             if sig in seen:
                 continue
             seen.add(sig)
             rep.inst(f"{f.key} [Parentheses->{conv}] guarded", {"conv": conv}, cfg, ok=bool(ok))
             if not ok:
-                rep.violation(f"{f.key} [Parentheses->{conv}] input={is_input} omit={omit} obscure={obscure} arg={arg_kind}",
+                rep.violation(f"{f.key} [Parentheses->{conv}] input={is_input} omit={omit} obscure={obscure} arg={arg_kind} single-argument={single}",
                               f"parentheses are dropped (call sugar {conv}) on a path where call_parentheses==Input is "
-                              f"{is_input}, {pred} is {omit}, obscure={obscure}, argument kind {arg_kind}", f.loc(), cfg)
+                              f"{is_input}, {pred} is {omit}, obscure={obscure}, argument kind {arg_kind}, `exactly one "
+                              f"argument` established: {single} (a call with several arguments would lose all but one)",
+                              f.loc(), cfg)
         rep.floor("paths converting f(x) to call sugar", nconv, 2, cfg)
         # the single argument is kept: the aggregate's payload derives from `arguments` of the Parentheses
         for b, si_, s in f.stmts():
             if s["k"] == "assign" and s["rv"]["k"] == "agg" and s["rv"].get("adt", "").endswith("FunctionArgs") and \
                     s["rv"].get("variant") in ("String", "TableConstructor") and s["dst"]["l"] != 0:
                 pr = provenance(f, s["rv"]["ops"][0], through=re.compile(
-                    PROV_THROUGH.pattern + r"|UpdateTrailingTrivia>::update_trailing_trivia$|UpdateLeadingTrivia>::update_leading_trivia$|::next$|::iter$|Option::<.*>::filter$|::first$|::last$"))
+                    PROV_THROUGH.pattern + r"|UpdateTrailingTrivia>::update_trailing_trivia$|UpdateLeadingTrivia>::update_leading_trivia$|::next$|::iter$|Option::<.*>::filter$"))
                 calls = prov_calls(pr)
                 args = {r[1] for r in pr if r[0] == "arg"}
                 # either the arm's own payload (arg) or the single argument of the parenthesised list
